@@ -32,6 +32,9 @@ def _case(draw, worlds, all_boundaries):
             'perturb_fresh': draw(st.booleans()), 'reverse_layers': draw(st.booleans()),
             'schedule': draw(st.lists(st.integers(0, 63), max_size=150)), 'flip': draw(st.booleans()), 'rollback_live': draw(st.booleans())}
     case.update(draw(placement(W, method, prediv)))
+    if draw(st.integers(0, 3)) == 0 and len(case['spec']['layers']) >= 2:
+        # nested containers: layer names such as '0' and '1.0' (one a dotted suffix of the other)
+        case['spec'] = dict(case['spec'], nest_from=draw(st.integers(1, len(case['spec']['layers']) - 1)))
     return case
 
 
